@@ -116,7 +116,7 @@ def gen_case(rng):
              ("OSAwg", s, i), ("OSAwg", s, ("slice", i, i + 1, None)),
              ("OSAwg", s, ("slice", rng.choice([None, 0, a]), rng.choice([None, a, nch, nch + 1, a + 1]), rng.choice([None, 1, 2]))),
              ("OSDescr", s)]
-    return {"prog": prog, "kind": "out-of-range" if any_out else "in-range", "ampl": {str(k): v for k, v in ampl.items()},
+    return {"prog": prog, "kind": klass, "ampl": {str(k): v for k, v in ampl.items()},
             "off": {str(k): v for k, v in off.items()}, "modes": modes, "npos": npos, "nch": nch, "index": i}
 
 
